@@ -551,6 +551,13 @@ class Fn:
             for ai, a in enumerate(c.args):
                 if a[0] in ("c", "m") and a[1][0] in refs and not a[1][1]:
                     res.add(("outarg", c.p, c.bb, ai, self._sym(pj)))
+        # `&mut local` captured by a closure: the closure may write it
+        for i, j, s in self.assigns():
+            rv = s[2]
+            if rv[0] == "agg" and rv[1] in ("closure", "coroutine"):
+                for ai, a in enumerate(rv[4]):
+                    if a[0] in ("c", "m") and a[1][0] in refs and not a[1][1]:
+                        res.add(("outarg", rv[2], i, ai, self._sym(pj)))
         return res
 
     def _origins_rvalue(self, rv, rest, bb, idx, seen, outargs, stop):
